@@ -88,7 +88,9 @@ def compare(ck, c, res, variant, values):
         if not problems and re_.get("D") is not None and ce.get("D") != re_.get("D") and not res["missing"]:
             problems.append(f"object bytes after storing the same member values differ: C={ce.get('D')} Rust={re_.get('D')}")
     if problems:
-        ck.violation(case, dict(det, why="; ".join(problems)[:700]))
+        from .c01 import structure_class
+        kinds = sorted({("size-align" if p.startswith("size/align") else "value" if "reads" in p else "bytes" if p.startswith("object bytes") else "offset") for p in problems})
+        ck.violation(case, dict(det, predicate=f"{'+'.join(kinds)}|{structure_class(c)}|{variant}", why="; ".join(problems)[:700]))
 
 
 def run(ck, only=None):
